@@ -9,12 +9,13 @@ type case =
   | ChkRaw of string               (* arbitrary bytes (short inputs) *)
   | Sweep of string * int          (* payload (data, version): all substitutions and truncations *)
   | Rdb of string * int            (* image, number of key records *)
+  | RdbBad of string * string      (* what was done to the trailer / content, image *)
   | RdbSweep of string
 
 let id = "C11"
 let rule = "random byte strings x random chunkings through the three digests; DUMP payloads of random type/value; payloads with every version \
 0..12, 255..258, 65535 and a correct CRC; for each generated payload / RDB image ALL single-byte substitutions (every position x 255 values) and \
-all trailer truncations (RDB images: content bytes < 0x40 and replacement values 0x80/0x81/0xc3 skipped, because they make the parser allocate GiB-sized buffers); non-trivial = non-empty data; distinct by wire line"
+all trailer truncations, plus whole-trailer damage of RDB images (zeroed, all ones, another file's checksum, reversed; with a flipped content bit) (RDB image sweeps: content bytes < 0x40 and replacement values 0x80/0x81/0xc3 skipped, because they make the parser allocate GiB-sized buffers); non-trivial = non-empty data; distinct by wire line"
 
 let n_of_bytes_crc s = Model.ext_digest (bytes_of_string s)
 let le64 (x : Model.n) = string_of_bytes (Model.le_enc (nat_of_int 8) x)
@@ -57,7 +58,20 @@ let gen st tier =
   let sweeps = List.init (25 * k) (fun _ -> Sweep (rnd_string st (1 + rnd_int st (if thorough then 300 else 60)), rnd_pick st [ 6; 6; 6; 9; 0 ])) in
   let rdbs = List.init (60 * k) (fun _ -> let (img, n) = mk_rdb st in Rdb (img, n)) in
   let rsweeps = List.init (12 * k) (fun _ -> RdbSweep (fst (mk_rdb st))) in
-  digests @ dumps @ chks @ raws @ sweeps @ rdbs @ rsweeps
+  (* whole-trailer damage: zeroed, all ones, the CRC of another body, byte-reversed; with and without a changed content byte *)
+  let rbad = List.concat (List.init (10 * k) (fun _ ->
+    let (img, _) = mk_rdb st in
+    let n = String.length img in
+    let body = String.sub img 0 (n - 8) and tr = String.sub img (n - 8) 8 in
+    let (other, _) = mk_rdb st in
+    let otr = String.sub other (String.length other - 8) 8 in
+    let flip b = let b = Bytes.of_string b in (let p = 9 + rnd_int st (max 1 (Bytes.length b - 10)) in Bytes.set b p (Char.chr ((Char.code (Bytes.get b p)) lxor 1))); Bytes.to_string b in
+    let rev = String.init 8 (fun i -> tr.[7 - i]) in
+    [ RdbBad ("checksum bytes zeroed", body ^ String.make 8 '\000'); RdbBad ("checksum bytes zeroed and one content bit flipped", flip body ^ String.make 8 '\000');
+      RdbBad ("checksum bytes all 0xff", body ^ String.make 8 '\255') ]
+    @ (if otr <> tr then [ RdbBad ("checksum of another file", body ^ otr) ] else [])
+    @ (if rev <> tr then [ RdbBad ("checksum bytes reversed", body ^ rev) ] else []))) in
+  digests @ dumps @ chks @ raws @ sweeps @ rdbs @ rsweeps @ rbad
 
 (* F4 witness: version 256+6 with a matching CRC was accepted by CheckVersionChecksum *)
 let corpus = [ Chk ("\x00\x01a", 262); Chk ("\x00\x01a", 256); Chk ("\x00\x01a", 10); Dump (0, "\x01a") ]
@@ -72,6 +86,7 @@ let to_line = function
   | Sweep (d, v) -> "sweep " ^ hex_of_string (payload_of d v)
   | Rdb (img, _) -> "rdb " ^ hex_of_string img
   | RdbSweep img -> "rdbsweep " ^ hex_of_string img
+  | RdbBad (_, img) -> "rdb " ^ hex_of_string img
 
 let show = function
   | Digest (d, ch) -> Printf.sprintf "digest of %d bytes written in chunks [%s]" (String.length d) (String.concat ";" (List.map string_of_int ch))
@@ -81,6 +96,7 @@ let show = function
   | Sweep (d, v) -> Printf.sprintf "all substitutions/truncations of payload(%d data bytes, version %d)" (String.length d) v
   | Rdb (img, n) -> Printf.sprintf "RDB image of %d bytes, %d keys" (String.length img) n
   | RdbSweep img -> Printf.sprintf "all substitutions/trailer truncations of an RDB image of %d bytes" (String.length img)
+  | RdbBad (d, img) -> Printf.sprintf "RDB image of %d bytes, %s" (String.length img) d
 
 let classify = function
   | Digest (d, ch) -> if d = "" then None else Some (if List.length ch > 1 then "digest:chunked" else "digest:whole")
@@ -90,6 +106,7 @@ let classify = function
   | Sweep _ -> Some "sweep"
   | Rdb _ -> Some "rdb"
   | RdbSweep _ -> Some "rdbsweep"
+  | RdbBad _ -> Some "rdb-trailer-damage"
 
 let chk_model (p : string) =
   let b = bytes_of_string p in
@@ -144,6 +161,10 @@ let judge c obs =
       let model = if Model.rdb_footer_ok (bytes_of_string img) then "ok:" ^ string_of_int n else "err:footer" in
       if impl = "ok:" ^ string_of_int n then (if impl = model then Agree else fail "diff" "rdb-model" model impl "")
       else fail "oracle" "intact-rdb-rejected" model impl "an intact RDB image is rejected or yields the wrong number of records"
+  | RdbBad (_, img) ->
+      if Model.rdb_footer_ok (bytes_of_string img) then Agree   (* a 2^-64 accident *)
+      else if String.length impl >= 3 && String.sub impl 0 3 = "err" then Agree
+      else fail "oracle" "rdb-bad-checksum-accepted" "err:footer" impl "an RDB image whose trailer is not the CRC-64 of its content loads without error"
   | RdbSweep _ ->
       if impl = "0 0 -" then Agree
       else fail "oracle" "rdb-substitution-accepted" "0 0 -" impl "an RDB image with one substituted byte (position:value) or a truncated trailer loads without error"
